@@ -151,6 +151,9 @@ func (b *BDD) of(n *Node, memo map[*Node]int) (int, bool) {
 	if r, ok := memo[n]; ok {
 		return r, true
 	}
+	if b.over {
+		return 0, false
+	}
 	var r int
 	switch n.op {
 	case opZero:
